@@ -31,6 +31,7 @@ METHODS = {
     "StdVectorBase": ["freeStorage", "shrink", "shrink_impl", "grow", "swap_impl", "move_construct", "move_assign"],
     "StaticVectorBase": ["swap_impl", "move_construct", "move_assign"],
 }
+LAYER_NAMES = ("adjustCapacity", "reserve", "resize", "assign", "append", "clear", "pop_back")
 PURE_MEMBERS = ("isSmall", "size", "capacity")                  # value-returning, translated by amc2coq (L0_<S>.v)
 MUTATORS = ("setSize", "incrSize", "decrSize")                  # words -> words, translated by amc2coq
 POINTER_ACCESSORS = ("ptr", "dyn", "begin", "end", "cbegin", "data", "dynStorage")
@@ -152,6 +153,8 @@ def ex(n, s, cx):
         if d is None or cx.default_index >= len(d) or d[cx.default_index] is None:
             raise U("default argument without a known value")
         return ex(d[cx.default_index], s, cx)
+    if k == "UnaryOperator" and n["opcode"] == "-":
+        return wrapto(A.ty(n), "(- %s)" % ex(n["inner"][0], s, cx))
     if k == "UnaryOperator" and n["opcode"] == "!":
         v = ex(n["inner"][0], s, cx)
         if A.ty(n["inner"][0]) != "bool":
@@ -237,17 +240,26 @@ class Gen:
             objv, which = obj_of(me["inner"][0], s)
             if nm in MUTATORS:
                 return self.upd(s, which, "(%s%s %s%s)" % (self.cx.pre, nm, objv, "".join(" " + ex(a, s, self.cx) for a in args)))
-            if nm in self.cx.done and which == "st":
+            if (nm, len(args)) in self.cx.overloads and which == "st":
+                nm_gen = self.cx.overloads[(nm, len(args))]
+            elif any(k[0] == nm for k in self.cx.overloads) or nm in LAYER_NAMES:
+                raise U("call of %s with %d arguments: that overload is not translated" % (nm, len(args)))
+            else:
+                nm_gen = nm
+            if nm_gen in self.cx.done and which == "st":
                 # a translated sibling: (words, effects) -> option (words * effects)
                 n1 = self.cx.fresh()
                 st2, ef2 = "st%d" % n1, "ef%d" % n1
                 argv = []
                 for i, a in enumerate(args):
+                    if not (is_int(a) or A.ty(a) == "bool"):
+                        continue   # references / pointers are not part of the bookkeeping
                     self.cx.current_defaults = self.cx.defaults.get(nm)
                     self.cx.default_index = i
                     argv.append(ex(a, s, self.cx))
                 self.cx.current_defaults = None
-                call = "%s%s %s%s" % (self.cx.pre, nm, s.st, "".join(" " + a for a in argv))
+                argv += ["0"] * self.cx.noracles.get(nm + "/" + str(len(args)), 0)   # address-derived parameters: any value (see BaseTV)
+                call = "%s%s %s%s" % (self.cx.pre, nm_gen, s.st, "".join(" " + a for a in argv))
                 s2 = S(st2, s.ot, ef2, s.extras)
                 return ("SIB|%s|%s|%s|%s|" % (call, st2, ef2, s.ef)), s2
             if nm in ("allocate", "deallocate", "reallocate"):
@@ -354,7 +366,15 @@ class Gen:
                 if r["kind"] == "CallExpr" and strip(r["inner"][0]).get("referencedDecl", {}).get("name") == "SafeNextCapacity":
                     a = [ex(x, s, self.cx) for x in r["inner"][1:]]
                     return "SNC|%s|%s|" % (d["name"], " ".join(a)), s
-                return "let %s := %s in " % (d["name"], ex(init, s, self.cx)), s
+                try:
+                    return "let %s := %s in " % (d["name"], ex(init, s, self.cx)), s
+                except U:
+                    # an integer computed from addresses (an element index recovered from a reference): not derivable from the
+                    # words; it becomes an extra, universally quantified parameter of the generated function
+                    if not any(x.get("kind") == "CXXMemberCallExpr" and x["inner"][0].get("name") in POINTER_ACCESSORS for x in A.walk(init)):
+                        raise
+                    self.cx.oracles.append(d["name"])
+                    return "", s
             # pointer valued local: only the effects of its initialiser count
             if init is None:
                 return "", s
@@ -419,11 +439,15 @@ def translate(m, cx):
     two = any(p.get("name") == "o" for p in params)
     ints = [(p.get("name") or "unused%d" % i, A.ty(p)) for i, p in enumerate(params) if A.ty(p) in INT_TYPES or A.ty(p) == "bool"]
     for p in params:
-        if p.get("name") != "o" and not (A.ty(p) in INT_TYPES or A.ty(p) == "bool"):
-            raise U("parameter of type " + A.ty(p))
+        t = A.ty(p)
+        if p.get("name") != "o" and not (t in INT_TYPES or t == "bool" or t.endswith(("&", "*")) or t == "double"):
+            raise U("parameter of type " + t)   # element values, references and pointers are not part of the bookkeeping
     g = Gen(cx, two)
     s0 = S("st", "ot", "ef0")
+    cx.oracles = []
     txt = g.block(body, s0)
+    ints = ints + [(o, "long") for o in cx.oracles]
+    cx.noracles[m["name"] + "/" + str(len(params))] = len(cx.oracles)
     # a sibling is called with the effects so far and returns only its own: every definition starts from []
     txt = "let ef0 := @nil eff in " + txt
     args = "(st : words)" + (" (ot : words)" if two else "") + "".join(" (%s : %s)" % (n, "bool" if t == "bool" else "Z") for n, t in ints)
@@ -450,14 +474,17 @@ def main():
         with open(src, "w") as f:
             f.write("#include <amc/smallvector.hpp>\n#include <amc/fixedcapacityvector.hpp>\n#include <amc/vector.hpp>\n")
             for tag, ct in TAGS:
-                f.write("template class amc::vec::SmallVectorBase<int, std::allocator<int>, %s>;\n" % ct)
-                f.write("template class amc::vec::StdVectorBase<int, std::allocator<int>, %s>;\n" % ct)
-                f.write("template class amc::vec::StaticVectorBase<int, %s>;\n" % ct)
-                f.write("template class amc::vec::DynamicVector<int, std::allocator<int>, %s, true>;\n" % ct)
-                f.write("template class amc::vec::DynamicVector<int, std::allocator<int>, %s, false>;\n" % ct)
-                f.write("template class amc::vec::StaticVector<int, %s, amc::vec::ExceptionGrowingPolicy>;\n" % ct)
+                f.write("template class amc::vec::SmallVectorBase<double, std::allocator<double>, %s>;\n" % ct)
+                f.write("template class amc::vec::StdVectorBase<double, std::allocator<double>, %s>;\n" % ct)
+                f.write("template class amc::vec::StaticVectorBase<double, %s>;\n" % ct)
+                f.write("template class amc::vec::DynamicVector<double, std::allocator<double>, %s, true>;\n" % ct)
+                f.write("template class amc::vec::DynamicVector<double, std::allocator<double>, %s, false>;\n" % ct)
+                f.write("template class amc::vec::StaticVector<double, %s, amc::vec::ExceptionGrowingPolicy>;\n" % ct)
+                f.write("template class amc::vec::VectorImpl<double, std::allocator<double>, %s, true, amc::vec::DynamicGrowingPolicy>;\n" % ct)
+                f.write("template class amc::vec::VectorImpl<double, std::allocator<double>, %s, false, amc::vec::DynamicGrowingPolicy>;\n" % ct)
+                f.write("template class amc::vec::VectorImpl<double, amc::vec::EmptyAlloc, %s, true, amc::vec::ExceptionGrowingPolicy>;\n" % ct)
         asts = {}
-        for cls in list(METHODS) + ["DynamicVector", "StaticVector"]:
+        for cls in list(METHODS) + ["DynamicVector", "StaticVector", "VectorImpl"]:
             path = os.path.join(tmp, cls + ".json")
             try:
                 A.dump_ast(include, "c++17", src, cls, path)
@@ -472,6 +499,8 @@ def main():
                 cx = Ctx(cls)
                 cx.done = set()
                 cx.defaults = {}
+                cx.overloads = {}
+                cx.noracles = {}
                 for name in METHODS[cls]:
                     cands = ms.get(name, [])
                     # move_construct of SmallVectorBase is overloaded: keep the one taking the same class
@@ -488,38 +517,70 @@ def main():
                         summary["functions"].setdefault(tag, []).append(PREFIX[cls] + name)
                     except U as e:
                         summary["errors"][key] = str(e)
-                # the growing-policy layer on top of the base: adjustCapacity(uintmax_t) of DynamicVector / StaticVector
+                # the layers on top of the base: DynamicVector / StaticVector (growing policy) and VectorImpl (operations)
                 dcls = "StaticVector" if cls == "StaticVectorBase" else "DynamicVector"
                 want = {"SmallVectorBase": "true", "StdVectorBase": "false"}.get(cls)
-                cx.defaults = {}
                 for name, cands in ms.items():
                     for m in cands[:1]:
                         cx.defaults[name] = [(p["inner"][-1] if p.get("inner") else None) for p in m["inner"] if p["kind"] == "ParmVarDecl"]
-                key = "%s.%s.adjustCapacity" % (tag, dcls + ("" if want is None else "<" + want + ">"))
-                got = None
-                for o in asts.get(dcls, []):
-                    for spec in A.walk(o):
-                        if spec.get("kind") != "ClassTemplateSpecializationDecl" or spec.get("name") != dcls:
-                            continue
-                        targs = [a for a in spec.get("inner", []) if a.get("kind") == "TemplateArgument"]
-                        tys = [a.get("type", {}).get("qualType") for a in targs]
-                        if ct not in tys:
-                            continue
-                        if want is not None and str(targs[-1].get("value")) not in (("-1", "1", "true") if want == "true" else ("0", "false")):
-                            continue
-                        for m in spec.get("inner", []):
-                            if (m.get("kind") == "CXXMethodDecl" and m.get("name") == "adjustCapacity" and got is None
-                                    and len([p for p in m["inner"] if p["kind"] == "ParmVarDecl"]) == 1
-                                    and any(c.get("kind") == "CompoundStmt" for c in m.get("inner", []))):
-                                got = m
-                if got is None:
-                    summary["errors"][key] = "method not found in the AST"
-                else:
+
+                def spec_ok(spec, clsname):
+                    targs = [a for a in spec.get("inner", []) if a.get("kind") == "TemplateArgument"]
+                    tys = [a.get("type", {}).get("qualType") for a in targs]
+                    if ct not in tys:
+                        return False
+                    flags = [str(a.get("value")) for a in targs if "value" in a]
+                    if want is not None:
+                        if not flags or flags[0] not in (("-1", "1", "true") if want == "true" else ("0", "false")):
+                            return False
+                        if clsname == "VectorImpl" and not any("DynamicGrowingPolicy" in str(t) for t in tys):
+                            return False
+                    elif clsname == "VectorImpl" and not any("ExceptionGrowingPolicy" in str(t) for t in tys):
+                        return False
+                    return True
+
+                def find_method(clsname, mname, nparams, second=None):
+                    for o in asts.get(clsname, []):
+                        for spec in A.walk(o):
+                            if spec.get("kind") != "ClassTemplateSpecializationDecl" or spec.get("name") != clsname or not spec_ok(spec, clsname):
+                                continue
+                            for m in spec.get("inner", []):
+                                if m.get("kind") != "CXXMethodDecl" or m.get("name") != mname:
+                                    continue
+                                ps = [p for p in m["inner"] if p["kind"] == "ParmVarDecl"]
+                                if len(ps) != nparams or not any(c.get("kind") == "CompoundStmt" for c in m.get("inner", [])):
+                                    continue
+                                if second is not None and second not in ps[1]["type"]["qualType"]:
+                                    continue
+                                return m
+                    return None
+
+                LAYER = [
+                    (dcls, "adjustCapacity", 1, None, "adjustCapacity"),
+                    (dcls, "adjustCapacity", 2, "const double &", "adjustCapacity_ref"),
+                    (dcls, "reserve", 1, None, "reserve"),
+                    ("VectorImpl", "resize", 1, None, "resize"),
+                    ("VectorImpl", "resize", 2, "const", "resize_v"),
+                    ("VectorImpl", "assign", 2, "const", "assign_n"),
+                    ("VectorImpl", "append", 1, None, "append_n"),
+                    ("VectorImpl", "append", 2, "const", "append_nv"),
+                    ("VectorImpl", "clear", 0, None, "clear"),
+                    ("VectorImpl", "pop_back", 0, None, "pop_back"),
+                ]
+                for clsname, mname, nparams, second, gname in LAYER:
+                    key = "%s.%s%s.%s" % (tag, clsname, "" if want is None else "<" + want + ">", gname)
+                    got = find_method(clsname, mname, nparams, second)
+                    if got is None:
+                        summary["errors"][key] = "method not found in the AST"
+                        continue
                     try:
                         cx.k = 0
                         txt, two = translate(got, cx)
+                        txt = txt.replace("Definition %s%s " % (cx.pre, mname), "Definition %s%s " % (cx.pre, gname), 1)
                         defs.append(txt)
-                        summary["functions"].setdefault(tag, []).append(PREFIX[cls] + "adjustCapacity")
+                        cx.done.add(gname)
+                        cx.overloads[(mname, nparams)] = gname
+                        summary["functions"].setdefault(tag, []).append(PREFIX[cls] + gname)
                     except U as e:
                         summary["errors"][key] = str(e)
             text = ("(* GENERATED by translator/base2coq.py from clang's AST of the amc headers (-std=c++17). Do not edit. *)\n"
